@@ -1,6 +1,6 @@
 from excel2pycl.src.cell import Cell
 from excel2pycl.src.context import Context
-from excel2pycl.src.excel import Excel
+from excel2pycl.src.excel import Excel, TextCellValue
 from excel2pycl.src.exceptions import E2PyclParserException
 from excel2pycl.src.translators.abstract_translator import AbstractTranslator
 
@@ -24,7 +24,7 @@ class CellTranslator(AbstractTranslator):
         if not cell.has_handled_identifiers():
             excel.fill_cell(cell)
         if not context.get_cell(cell):
-            if isinstance(cell.value, str) and cell.value.find('=') == 0:
+            if isinstance(cell.value, str) and cell.value.find('=') == 0 and not isinstance(cell.value, TextCellValue):
                 from excel2pycl.src.ast_builder import AstBuilder
                 from excel2pycl.src.lexer import Lexer
                 cell_uid = cell.uid
